@@ -256,3 +256,214 @@ def discarded_results(prog: Program, f: Func) -> list[ast.Call]:
                 elif nm != "replace" or isinstance(c.func, ast.Attribute):
                     out.append(c)
     return out
+
+
+# ------------------------------------------------------------------------------------------------ lazy iterators stored
+LAZY_CALLS = {"map", "filter", "zip", "reversed", "iter", "enumerate"}
+
+
+def stored_lazy_iterators(f: Func) -> list[ast.AST]:
+    """a one-shot iterator (map/filter/zip/reversed/generator expression) stored into an attribute, a subscript, or passed
+    as a keyword argument to a constructor-like call (capitalised callee): the first consumer empties it"""
+    out = []
+
+    def lazy(e) -> bool:
+        return isinstance(e, ast.GeneratorExp) or (isinstance(e, ast.Call) and isinstance(e.func, ast.Name) and e.func.id in LAZY_CALLS)
+
+    for n in walk_no_nested(f.node):
+        if isinstance(n, ast.Assign) and lazy(n.value) and any(isinstance(t, (ast.Attribute, ast.Subscript)) for t in n.targets):
+            out.append(n)
+        elif isinstance(n, ast.Call):
+            nm = n.func.id if isinstance(n.func, ast.Name) else (n.func.attr if isinstance(n.func, ast.Attribute) else "")
+            if nm[:1].isupper() or nm == "cls":
+                for k in n.keywords:
+                    if k.arg and lazy(k.value):
+                        out.append(k.value)
+            if nm == "model_copy" or nm == "replace":
+                for k in n.keywords:
+                    if isinstance(k.value, ast.Dict):
+                        for v in k.value.values:
+                            if lazy(v):
+                                out.append(v)
+                    elif k.arg and lazy(k.value):
+                        out.append(k.value)
+        elif isinstance(n, ast.Dict):
+            # layer dictionaries ({"scope": ..., "stack": map(...)})
+            for v in n.values:
+                if lazy(v):
+                    out.append(v)
+    return out
+
+
+# ------------------------------------------------------------------------------------------------ push/pop pairing
+def unbalanced_push(f: Func) -> list[tuple[ast.Call, str]]:
+    """a list used as a manual stack (both `.append(x)` and `.pop()` without index in the same function): every path from a
+    push to the end of the enclosing loop iteration / function must pass a pop"""
+    pushes, pops = {}, {}
+    for n in walk_no_nested(f.node):
+        if isinstance(n, ast.Call) and isinstance(n.func, ast.Attribute) and isinstance(n.func.value, ast.Name):
+            if n.func.attr == "append" and len(n.args) == 1:
+                pushes.setdefault(n.func.value.id, []).append(n)
+            elif n.func.attr == "pop" and not n.args:
+                pops.setdefault(n.func.value.id, []).append(n)
+    out = []
+    stacks = [s for s in pushes if s in pops]
+    if not stacks:
+        return out
+    cfg = CFG(f.node)
+    for s in stacks:
+        pop_nodes = [cfg.containing(p) for p in pops[s]]
+        pop_nodes = [p for p in pop_nodes if p is not None]
+        for push in pushes[s]:
+            pn = cfg.containing(push)
+            if pn is None:
+                continue
+            # exits: function exit and the header of the innermost loop containing the push (next iteration)
+            exits = [cfg.exit]
+            for ln in cfg.nodes:
+                if ln.kind == "for" and any(push is y for y in ast.walk(ln.ast)):
+                    exits.append(ln)
+            reach = cfg.reachable(pn, removed_nodes=[p for p in pop_nodes if p is not pn], follow_exc=False)
+            leaked = [e for e in exits if e in reach and e is not pn]
+            if leaked:
+                out.append((push, s))
+    return out
+
+
+# ------------------------------------------------------------------------------------------------ swapped tuple unpacking
+GENERIC_WORDS = {"comments", "comment", "trivia", "list", "items", "item", "nodes", "node", "value", "values", "str", "text", "result"}
+
+
+def _tokens(name: str) -> set[str]:
+    return {t for t in name.lower().replace("-", "_").split("_") if len(t) > 2 and t not in GENERIC_WORDS}
+
+
+def swapped_unpacks(prog: Program, f: Func) -> list[tuple[ast.Assign, str]]:
+    """`a, b = g(...)` where g returns `(x, y)` by name and the target names say the opposite order: target i shares a word
+    with returned name j != i and none with returned name i"""
+    out = []
+    for n in walk_no_nested(f.node):
+        if not (isinstance(n, ast.Assign) and isinstance(n.targets[0], ast.Tuple) and isinstance(n.value, ast.Call) and isinstance(n.value.func, ast.Name)):
+            continue
+        g = prog.funcs.get(n.value.func.id)
+        if g is None or g.cls is not None:
+            continue
+        tnames = [t.id if isinstance(t, ast.Name) else None for t in n.targets[0].elts]
+        if None in tnames or len(tnames) != 2:
+            continue
+        rets = [r for r in walk_no_nested(g.node) if isinstance(r, ast.Return) and isinstance(r.value, ast.Tuple) and len(r.value.elts) == 2
+                and all(isinstance(e, ast.Name) for e in r.value.elts)]
+        if not rets:
+            continue
+        rn = [e.id for e in rets[-1].value.elts]
+        t0, t1, r0, r1 = _tokens(tnames[0]), _tokens(tnames[1]), _tokens(rn[0]), _tokens(rn[1])
+        straight = bool(t0 & r0) + bool(t1 & r1)
+        crossed = bool(t0 & r1) + bool(t1 & r0)
+        if crossed > straight and crossed >= 1 and straight == 0:
+            out.append((n, f"{g.key} returns ({rn[0]}, {rn[1]})"))
+    return out
+
+
+# ------------------------------------------------------------------------------------------------ return shape vs unpacking
+def return_shape_mismatches(prog: Program, f: Func) -> list[tuple[ast.AST, str]]:
+    """callers unpack `a, b = self.helper(...)` / `a, b = helper(...)`: every return of the helper must be a tuple of that many
+    elements (or a call / name whose shape is unknown)"""
+    out = []
+    for n in walk_no_nested(f.node):
+        if not (isinstance(n, ast.Assign) and isinstance(n.targets[0], ast.Tuple) and isinstance(n.value, ast.Call)):
+            continue
+        if any(isinstance(t, ast.Starred) for t in n.targets[0].elts):
+            continue
+        want = len(n.targets[0].elts)
+        g = None
+        fn = n.value.func
+        if isinstance(fn, ast.Name):
+            h = f
+            while h is not None and g is None:
+                g = h.nested.get(fn.id)
+                h = h.parent
+            if g is None and fn.id in prog.funcs and prog.funcs[fn.id].cls is None:
+                g = prog.funcs[fn.id]
+        elif isinstance(fn, ast.Attribute) and isinstance(fn.value, ast.Name) and fn.value.id == "self":
+            owner = f
+            while owner.parent is not None:
+                owner = owner.parent
+            if owner.cls:
+                g = prog.method(owner.cls, fn.attr)
+        if g is None or any("contextmanager" in norm(d) for d in g.node.decorator_list):
+            continue
+        for r in walk_no_nested(g.node):
+            if not isinstance(r, ast.Return) or r.value is None:
+                continue
+            v = r.value
+            if isinstance(v, ast.Tuple):
+                if not any(isinstance(e, ast.Starred) for e in v.elts) and len(v.elts) != want:
+                    out.append((r, f"{g.key} returns {len(v.elts)} values, {f.key} unpacks {want}"))
+            elif isinstance(v, (ast.Constant, ast.JoinedStr, ast.List, ast.Dict, ast.Compare, ast.BoolOp)) and not (isinstance(v, ast.Constant) and v.value is None and False):
+                out.append((r, f"{g.key} returns `{norm(v)[:30]}` (not a {want}-tuple), {f.key} unpacks {want}"))
+            elif isinstance(v, ast.Name):
+                # a local assigned only from constructor calls / non-tuples
+                ds = [d for d in ast.walk(g.node) if isinstance(d, ast.Assign) and len(d.targets) == 1 and norm(d.targets[0]) == v.id]
+                if ds and all(isinstance(d.value, ast.Call) and (norm(d.value.func)[:1].isupper() or norm(d.value.func).endswith(("model_copy", "layout_from_gap")))
+                              for d in ds):
+                    out.append((r, f"{g.key} returns `{v.id}` (a single object), {f.key} unpacks {want}"))
+    return out
+
+
+# ------------------------------------------------------------------------------------------------ regular expressions
+def redos_patterns(prog: Program) -> list[tuple[str, ast.AST, str]]:
+    """regex literals with an unbounded repeat whose body contains another unbounded repeat (or an alternation with one):
+    `(a+)*`, `(?:[ \\t]+|\\r)*` — exponential backtracking on a run of matching characters followed by a mismatch"""
+    import re._constants as sc  # type: ignore
+    import re._parser as sp  # type: ignore
+    out = []
+
+    def unbounded(item) -> bool:
+        op, av = item
+        return op in (sc.MAX_REPEAT, sc.MIN_REPEAT) and av[1] == sc.MAXREPEAT
+
+    def contains_unbounded(seq) -> bool:
+        for op, av in seq:
+            if op in (sc.MAX_REPEAT, sc.MIN_REPEAT):
+                if av[1] == sc.MAXREPEAT:
+                    return True
+                if contains_unbounded(av[2]):
+                    return True
+            elif op == sc.SUBPATTERN:
+                if contains_unbounded(av[3]):
+                    return True
+            elif op == sc.BRANCH:
+                if any(contains_unbounded(b) for b in av[1]):
+                    return True
+        return False
+
+    def nested(seq) -> bool:
+        for item in seq:
+            op, av = item
+            if op in (sc.MAX_REPEAT, sc.MIN_REPEAT):
+                if av[1] == sc.MAXREPEAT and contains_unbounded(av[2]):
+                    return True
+                if nested(av[2]):
+                    return True
+            elif op == sc.SUBPATTERN and nested(av[3]):
+                return True
+            elif op == sc.BRANCH and any(nested(b) for b in av[1]):
+                return True
+        return False
+
+    def scan(mod, node):
+        for c in ast.walk(node):
+            if isinstance(c, ast.Call) and isinstance(c.func, ast.Attribute) and isinstance(c.func.value, ast.Name) and c.func.value.id == "re" \
+                    and c.func.attr in ("compile", "match", "fullmatch", "search", "sub", "split", "findall", "finditer") and c.args \
+                    and isinstance(c.args[0], ast.Constant) and isinstance(c.args[0].value, str):
+                pat = c.args[0].value
+                try:
+                    parsed = sp.parse(pat)
+                except Exception:
+                    continue
+                yield c, pat, nested(list(parsed))
+
+    for mod, tree in prog.modules.items():
+        for c, pat, bad in scan(mod, tree):
+            out.append((mod, c, pat, bad))
+    return out
